@@ -1198,7 +1198,7 @@ def rot_oracle(pre, post, m, n, complete, rc=0):
         if post.get(k) != v:
             res.append(("rotate:unrelated-file-touched", "%s changed although it is below max-bytes / not a target" % k))
     slots = [LIVE] + ["%s.%d" % (LIVE, g) for g in range(1, n + 1)]
-    known = set(slots) | set(OTHER) | {"%s.%d" % (LIVE, g) for g in range(1, 5)}
+    known = set(slots) | set(OTHER) | {"%s.%d" % (LIVE, g) for g in range(1, 5)} | set(pre)   # pre-existing names are not strays
     stray = sorted(set(post) - known)
     if complete and stray:
         res.append(("rotate:stray-file", "unexpected files %r after a complete rotation" % (stray,)))
@@ -1373,6 +1373,31 @@ def check_rotate(case, scratch=None, st: Stats = None, depth=None):
             shutil.rmtree(own, ignore_errors=True)
 
 
+def _rotate_wide_worker(chunk, st: Stats, scratch):
+    """two-digit generations: g consecutive pre-existing generations (g in 8..13), backup counts 11 / 12 / 13, two
+    rotations with an append in between (complete and killed before every os-level call): the cascade is numeric,
+    not lexicographic ('.9' < '.10' < '.11')"""
+    d = os.path.join(scratch, "rotw-%d" % os.getpid())
+    shutil.rmtree(d, ignore_errors=True)
+    os.makedirs(d)
+    try:
+        for g, n in chunk:
+            files = {"%s.%d" % (LIVE, k): _tok(g + 1 - k, 12) for k in range(1, g + 1)}
+            files[LIVE] = _tok(g + 1, 20)
+            nxt = g + 2
+            hist = []
+            for op in (["r", 8, n], ["a", 10], ["a", 10], ["r", 8, n]):
+                files, nxt, res = _rot_step(d, files, nxt, op, st)
+                hist.append(op)
+                for sig, what, _k in res:
+                    _viol(st, sig + ":two-digit-generations", "generations .1-.%d, backups %d, history %r: %s" % (g, n, hist, what),
+                          {"kind": "rotate-wide", "g": g, "n": n})
+                if res:
+                    break
+    finally:
+        shutil.rmtree(d, ignore_errors=True)
+
+
 def _rotate_worker(chunk, st: Stats, scratch, depth):
     for init, op in chunk:
         check_rotate({"kind": "rotate", "init": init, "history": [op]}, scratch, st, depth)
@@ -1427,6 +1452,9 @@ def run(run: Run) -> None:
     inits = rot_initial_states()
     items = [(i, op) for i in range(len(inits)) for op in ROT_OPS]
     run.pmap(_rotate_worker, items, extra=(run.scratch, depth))
+    wide = [(g, n) for g in (8, 9, 10, 11, 12, 13) for n in (11, 12, 13)]
+    run.notes["rotation_wide_cases"] = len(wide)
+    run.pmap(_rotate_wide_worker, wide, extra=(run.scratch,))
 
     run.rule = (
         "append: every writer configuration (2 writers x 1-2 records, 3 writers x 1%s records; shapes unicode / 9 KiB / 70 KiB%s; "
@@ -1460,6 +1488,14 @@ def replay(case):
         return check_stager(case)[0]
     if k == "rewrite":
         return check_rewrite(case)[0]
+    if k == "rotate-wide":
+        st = Stats()
+        tmp = tempfile.mkdtemp(prefix="c16w", dir="/dev/shm" if os.path.isdir("/dev/shm") else None)
+        try:
+            _rotate_wide_worker([(case["g"], case["n"])], st, tmp)
+        finally:
+            shutil.rmtree(tmp, ignore_errors=True)
+        return [(sg, w) for sg, (w, _c) in st.viol.items()]
     if k == "rotate":
         return check_rotate(case)
     raise HarnessError("unknown case kind %r" % (k,))
